@@ -83,6 +83,9 @@ public:
     // flag==false initializes solution to zero
     // flag==true  starts from solution of previous call
     int PBCGSolveMod(int flag,bool verbose=false);	// Precondition Biconjugate Gradient
+#ifdef XFEMM_VERIF
+    int PBCGSolveModImpl(int flag,bool verbose); // the solver proper; PBCGSolveMod wraps it with the verification hooks
+#endif
     int PCGSQStart();
     int PBCGSolve(int flag);
     int BiCGSTAB(int flag);
